@@ -133,3 +133,16 @@ def pred_means(pred, a, rel, b, usize_bits=64):
     L0 = lin.Ctx(usize_bits)
     L0.add_fact(Q.norm_fact((pred, "eq", 0)))
     return lin.entails(L1, goal(L1, False)) and lin.entails(L0, goal(L0, True))
+
+
+def block_in_frame(eng, ev, frame):
+    """the block of `frame` under which event ev happens (ev may be in an inlined callee frame); None if unrelated"""
+    fk, b = ev["frame"], ev["block"]
+    while fk is not None:
+        if fk == frame.key:
+            return b
+        fr = eng.frames.get(fk)
+        if fr is None or fr.parent is None:
+            return None
+        fk, b = fr.parent.key, fr.call_block
+    return None
